@@ -37,6 +37,7 @@ from translate import c17_templates as tr
 from gen import progs
 
 KNOWN_WALRUS = 'C17-namedexpr-ctx'
+KNOWN_LIST_TARGET = 'C17-list-target-new-list'
 
 # ----------------------------------------------------------------------------- programs
 HAND = [
@@ -57,7 +58,7 @@ HAND = [
     ('tryflow', 'def f(a, b, c):\n    try:\n        x = a / b\n    except ZeroDivisionError:\n        x = 0\n    except (TypeError, ValueError) as e:\n        x = str(e)\n    else:\n        x += 1\n    finally:\n        c.append(1)\n    with a as p, b as (q, r):\n        x = p\n    return x\n'),
     ('globals_', 'def f(a, b, c):\n    global G\n    G = a\n    def g():\n        nonlocal b\n        b = G\n        return b\n    del a, c[0], c.x\n    assert b, "msg"\n    return g()\n'),
     ('listops', 'def f(a, b, c):\n    l = []\n    l.append(a)\n    l.append(b)\n    x = l.pop()\n    l[0] = c\n    l[1:2] = a\n    l[0] += 1\n    y = l[0]\n    return l, x, y\n'),
-    ('semi', 'def f(a, b, c):\n    x = 1; y = 2\n    if a: x = 2\n    s = """doc\n  string"""\n    t = (a,)\n    u = ()\n    v = a,\n    return x, y, s, t, u, v, (yield_ := 3) if False else 0\n'),
+    ('semi', 'def f(a, b, c):\n    x = 1; y = 2\n    if a: x = 2\n    s = """doc\n  string"""\n    t = (a,)\n    u = ()\n    v = a,\n    return x, y, s, t, u, v, 3 if False else 0\n'),
     ('matmul', 'def f(a, b, c):\n    x = a @ b // c % a ** b << c >> a & b | c ^ a\n    x @= a\n    x //= b\n    x **= c\n    x >>= 1\n    return x\n'),
     ('annot', 'def f(a: int, b: "str" = 1, *c: float) -> list:\n    x: int = a\n    y: list\n    return x\n'),
     ('printcall', 'def f(a, b, c):\n    print(a, len(b), range(c), sep="")\n    return int(a) + float(b) + abs(c)\n'),
@@ -174,10 +175,8 @@ def ctx_violations(root):
     return bad
 
 
-def cpython_ctx_verdict(root_stmts):
-    """True / False (CPython's validator complains about a context) / None (other problem)."""
-    m = ast.Module(body=copy.deepcopy(list(root_stmts)), type_ignores=[])
-    # deepcopy keeps sharing; unshare by re-walking is unnecessary for the validator
+def _cpython_ctx_verdict(root_stmts):
+    m = ast.Module(body=list(root_stmts), type_ignores=[])
     try:
         ast.fix_missing_locations(m)
         compile(m, '<c17>', 'exec')
@@ -188,6 +187,29 @@ def cpython_ctx_verdict(root_stmts):
         return None
     except (SyntaxError, TypeError, RecursionError):
         return None
+
+
+def cpython_ctx_verdict(root_stmts):
+    """True / False (CPython's validator complains about a context) / None (other problem).
+    Runs in a forked child: CPython 3.12 can abort on hand-built trees its validator lets through."""
+    r, w = os.pipe()
+    pid = os.fork()
+    if pid == 0:
+        code = b'n'
+        try:
+            os.close(r)
+            v = _cpython_ctx_verdict(root_stmts)
+            code = b't' if v is True else b'f' if v is False else b'n'
+        finally:
+            try:
+                os.write(w, code)
+            finally:
+                os._exit(0)
+    os.close(w)
+    data = os.read(r, 1)
+    os.close(r)
+    os.waitpid(pid, 0)
+    return {b't': True, b'f': False}.get(data)
 
 
 def is_bad_walrus_target(parent, fld, node):
@@ -221,6 +243,43 @@ def repair_walrus(root):
     return r
 
 
+def find_new_list_targets(root):
+    """ag__.new_list(...) calls standing in a Store/Del position (the lists converter rewrote a
+    list display that is an assignment target)."""
+    out = []
+    for n, c, parent, fld in ctx_violations(root):
+        if (c is not ast.Load and isinstance(n, ast.Call) and ast.unparse(n.func) == 'ag__.new_list'
+                and len(n.args) == 1 and isinstance(n.args[0], ast.List)):
+            out.append(n)
+    return out
+
+
+def repair_new_list_targets(root):
+    """copy of the tree with every such call replaced by the list display it wraps, as a target."""
+    r = copy.deepcopy(root)
+
+    def store(t):
+        if isinstance(t, ast.Call) and ast.unparse(t.func) == 'ag__.ld' and len(t.args) == 1:
+            t = t.args[0]
+        if isinstance(t, ast.Call) and ast.unparse(t.func) == 'ag__.new_list' and len(t.args) == 1:
+            t = t.args[0]
+        if hasattr(t, 'ctx'):
+            t.ctx = ast.Store()
+        if isinstance(t, (ast.Tuple, ast.List)):
+            t.elts = [store(e) for e in t.elts]
+        elif isinstance(t, ast.Starred):
+            t.value = store(t.value)
+        return t
+
+    class Fix(ast.NodeTransformer):
+        def visit_Call(self, n):
+            if any(n is b for b in bad):
+                return store(n)
+            return self.generic_visit(n)
+    bad = find_new_list_targets(r)
+    return Fix().visit(r)
+
+
 def tree_checks(root, parser):
     """the tree-level part of the property on one tree; -> list of (what, detail)"""
     fails = []
@@ -246,11 +305,29 @@ def tree_checks(root, parser):
         fails.append(('unparsed transformed tree does not compile', '%s: %s' % (type(e).__name__, e)))
         return fails
     back = ast.parse(text).body
-    want = ast.dump(root)
-    got = ast.dump(back[0]) if len(back) == 1 else '[%s]' % ', '.join(ast.dump(b) for b in back)
+    want = cdump(root)
+    got = cdump(back[0]) if len(back) == 1 else '[%s]' % ', '.join(cdump(b) for b in back)
     if want != got:
         fails.append(('re-parsing the unparsed text gives a different tree', _first_diff(want, got)))
     return fails
+
+
+def cdump(n):
+    """ast.dump without malt's annotation field, attributes and the None / [] / missing distinction."""
+    if isinstance(n, ast.AST):
+        parts = []
+        for f in n._fields:
+            if f.startswith('__'):
+                continue
+            parts.append('%s=%s' % (f, cdump(getattr(n, f, None))))
+        return '%s(%s)' % (type(n).__name__, ', '.join(parts))
+    if isinstance(n, (list, tuple)):
+        if not n:
+            return '-'
+        return '[%s]' % ', '.join(cdump(x) for x in n)
+    if n is None:
+        return '-'
+    return repr(n)
 
 
 def _short(n):
@@ -301,6 +378,22 @@ class Monitor(object):
             finally:
                 mon.stack.pop()
             rec['result'] = result
+            # later passes mutate the returned nodes in place: export now
+            try:
+                if rec.get('skip') or not rec.get('tpl_term'):
+                    raise tr.Untranslatable('skipped')
+                if sum(1 for n in result for _ in walk_nodes(n)) > mon.max_nodes:
+                    raise tr.Untranslatable('large')
+                rec['res_terms'] = [tr.to_coq(n, rec['ids']) for n in result]
+                rec['enodup'] = not duplicate_nodes(result)
+                cv = [v for n in result for v in ctx_violations(n)]
+                rec['ectx'] = not cv
+                rec['bad_ctx'] = _short(cv[0][0]) if cv else None
+                rec['res_text'] = '\n'.join(_safe_unparse(copy.deepcopy(n)) for n in result)[:600]
+            except tr.Untranslatable as e:
+                rec['res_terms'] = None
+                if not rec.get('skip'):
+                    rec['skip'] = str(e)
             mon.calls.append(rec)
             return result
 
@@ -361,21 +454,11 @@ def export_repls(conv, ids):
 
 def icase_of(idx, rec):
     """Coq icase term for a recorded call, or None."""
-    if rec.get('skip') or not rec.get('tpl_term'):
+    if rec.get('skip') or not rec.get('tpl_term') or rec.get('res_terms') is None:
         return None
-    ids = rec['ids']
-    try:
-        res_terms = [tr.to_coq(n, ids) for n in rec['result']]
-    except tr.Untranslatable:
-        return None
-    total = ids.next
-    if total > 600:
-        return None
-    enodup = not duplicate_nodes(rec['result'])
-    ectx = all(not ctx_violations(n) for n in rec['result'])
     R = '[%s]' % '; '.join('(%s, [%s])' % (tr.coq_str(k), '; '.join(ts)) for k, ts in rec['repl_terms'])
-    return '(%d, %d, %s, %s, [%s], %s, %s)' % (idx, rec['n0'], R, rec['tpl_term'], '; '.join(res_terms),
-                                              vlib.coq_bool(enodup), vlib.coq_bool(ectx))
+    return '(%d, %d, %s, %s, [%s], %s, %s)' % (idx, rec['n0'], R, rec['tpl_term'], '; '.join(rec['res_terms']),
+                                              vlib.coq_bool(rec['enodup']), vlib.coq_bool(rec['ectx']))
 
 
 # ----------------------------------------------------------------------------- synthetic inputs
@@ -546,7 +629,7 @@ def run_pipeline(run, programs, tmpdir, mon):
                 root = captured[0]
                 stats['trees'] += 1
                 stats['nodes'] += sum(1 for _ in walk_nodes(root))
-                run.nontriv(ast.dump(root))
+                run.nontriv(cdump(root))
                 local = []
                 for what, detail in tree_checks(root, parser):
                     local.append((what, detail))
@@ -567,11 +650,14 @@ def run_pipeline(run, programs, tmpdir, mon):
                     local += loaded_checks(api, fn, conv, root, recursive, feats, mon)
                 if local:
                     cls = None
-                    bad = find_bad_walrus(root)
-                    if bad:
+                    if find_bad_walrus(root):
                         fixed = repair_walrus(root)
                         if fixed is not None and not tree_checks(fixed, parser):
                             cls = KNOWN_WALRUS
+                    elif find_new_list_targets(root):
+                        fixed = repair_new_list_targets(root)
+                        if not tree_checks(fixed, parser):
+                            cls = KNOWN_LIST_TARGET
                     for what, detail in local:
                         failures.append({'program': pname, 'source': src, 'recursive': recursive,
                                          'optional_features': repr(feats), 'what': what, 'detail': detail,
@@ -615,7 +701,7 @@ def loaded_checks(api, fn, conv, root, recursive, feats, mon):
     clines = code.split('\n')
     if clines and clines[-1] == '':
         clines = clines[:-1]
-    if flines[first - 1:first - 1 + len(clines)] != clines:
+    if textwrap.dedent('\n'.join(flines[first - 1:first - 1 + len(clines)])).split('\n') != clines:
         out.append(('to_code text is not the text of the loaded module file at the function\'s position',
                     'file %s line %d: %r vs to_code: %r' % (path, first, flines[first - 1:first + 1], clines[:2])))
     # the code that runs is the code of that file
@@ -629,9 +715,8 @@ def loaded_checks(api, fn, conv, root, recursive, feats, mon):
     # what to_code shows is the transformed tree
     try:
         shown = ast.parse(textwrap.dedent(code)).body
-        want = copy.copy(root)
-        if len(shown) != 1 or ast.dump(shown[0]) != ast.dump(want):
-            out.append(('to_code text does not parse to the transformed tree', _first_diff(ast.dump(want), ast.dump(shown[0]) if shown else '')))
+        if len(shown) != 1 or cdump(shown[0]) != cdump(root):
+            out.append(('to_code text does not parse to the transformed tree', _first_diff(cdump(root), cdump(shown[0]) if shown else '')))
     except SyntaxError as e:
         out.append(('to_code text does not parse', str(e)))
     return out
@@ -700,6 +785,11 @@ def ctx_cases(rnd, roots, n):
             continue
         v = cpython_ctx_verdict([r])
         if v is None:
+            continue
+        mine = ctx_violations(tr.module_of([r]))
+        if v and mine and all(is_bad_walrus_target(p, f, x) for x, c, p, f in mine):
+            # CPython's validator only checks that a walrus target is a Name, not its ctx
+            # (Python/ast.c validate_expr, NamedExpr_kind); the parser always produces Store
             continue
         try:
             term = tr.to_coq(tr.module_of([r]), tr.Ids())
@@ -821,6 +911,7 @@ def _check(run, tmpdir):
     roots_for_ctx = []
     for rec in sel[:200]:
         roots_for_ctx += [n for n in rec['result'] if isinstance(n, ast.stmt)][:2]
+    roots_for_ctx += [ast.parse(src).body[0] for _, src in programs[:60]]   # the parser's own output: always consistent
     ccases = ctx_cases(rnd, roots_for_ctx, 150 if quick else 800)
 
     corr_bad = []
@@ -871,29 +962,19 @@ def _check(run, tmpdir):
     # calls outside the guards of the theorems: the model result itself tells whether harm was done
     run.extra['calls_outside_ctx_guard'] = len(unguarded)
     run.extra['calls_outside_sharing_guard'] = len(sharing)
-    # a pipeline call whose RESULT is inconsistent is a property-level failure in its own right
-    for i in sorted(set(unguarded)):
+    # intermediate results are not the property (a later pass may still repair them); they are
+    # counted, and they are the search material when a proof or a tie is broken
+    inconsistent_calls = []
+    for i in sorted(set(unguarded) | set(sharing)):
         rec = imeta.get(i)
-        if rec is None or rec in syn_calls:
+        if rec is None or any(rec is r for r in syn_calls):
             continue
-        bad = [v for n in rec['result'] for v in ctx_violations(n)]
-        if bad:
-            cls = KNOWN_WALRUS if all(is_bad_walrus_target(p, f, n) for n, c, p, f in bad) else None
-            failures.append({'program': '(templates.replace call recorded during conversion)', 'source': rec['template'],
-                             'recursive': None, 'optional_features': None,
-                             'what': 'templates.replace returned a tree with an expression context that does not match its position',
-                             'detail': '%s; first: %s' % (describe_repl(rec), _short(bad[0][0])), 'classify': cls,
-                             'transformed': '\n'.join(_safe_unparse(n) for n in rec['result'])})
-    for i in sorted(set(sharing)):
-        rec = imeta.get(i)
-        if rec is None or rec in syn_calls:
-            continue
-        if duplicate_nodes(rec['result']):
-            failures.append({'program': '(templates.replace call recorded during conversion)', 'source': rec['template'],
-                             'recursive': None, 'optional_features': None,
-                             'what': 'templates.replace returned a tree in which a node object occurs twice',
-                             'detail': describe_repl(rec), 'classify': None,
-                             'transformed': '\n'.join(_safe_unparse(n) for n in rec['result'])})
+        if not rec['ectx'] or not rec['enodup']:
+            inconsistent_calls.append('template %r with %s -> %s' % (
+                rec['template'].strip()[:80], describe_repl(rec)[:300],
+                ('context: ' + rec['bad_ctx']) if not rec['ectx'] else 'shared node'))
+    run.extra['replace_results_inconsistent'] = len(inconsistent_calls)
+    run.extra['replace_results_inconsistent_examples'] = inconsistent_calls[:3]
 
     # 5. verdict
     seen = set()
@@ -914,10 +995,10 @@ def _check(run, tmpdir):
             run.evaluations, len(pipeline_calls))
         if tie_msg is not None:
             run.violation('translator no longer recognises the source: ' + tie_msg,
-                          {'broken_tie': tie_msg, 'searched': searched}, found_input=False)
+                          {'broken_tie': tie_msg, 'searched': searched, 'inconsistent_intermediate_results': inconsistent_calls[:5]}, found_input=False)
         elif corr_bad:
             run.violation('correspondence model/implementation broken', {'broken_correspondence': corr_bad[:12],
-                                                                          'searched': searched}, found_input=False)
+                          'searched': searched, 'inconsistent_intermediate_results': inconsistent_calls[:5]}, found_input=False)
     elif corr_bad:
         run.note('correspondence disagreements: ' + '; '.join(corr_bad[:3]))
     run.assumptions += [
